@@ -196,7 +196,7 @@ class HTML(String):
                 l_ = len(args)
                 if not (args == sargs or  # NOQA: W504
                         args == sargs[:l_] and  # NOQA: W504
-                        sargs[l_:l_ + 1] in ' \t\n'):
+                        sargs[l_:l_ + 1] <= ' '):
                     return tag, args, self.commands[name], None
 
             return tag, args, None, name
